@@ -117,6 +117,29 @@ def parse_sanitizer(stderr_text):
 # ----------------------------------------------------------------------------------------------
 # worker pool
 
+def parse_tsan(text):
+    """ThreadSanitizer report blocks -> list of {kind, sig, summary, head}; sig = kind + the innermost in-repo/harness frames of the two accesses, line numbers stripped"""
+    out = []
+    for block in re.split(r'(?m)^={18}\s*$', text):
+        m = re.search(r'WARNING: ThreadSanitizer: ([^\n(]+)', block)
+        if not m:
+            continue
+        kind = m.group(1).strip()
+        fns = []
+        for part in re.split(r'\n\s*\n', block):
+            if not re.match(r'\s*(Read|Write|Previous|Atomic|Mutex|Thread|Location|As if)', part.strip(), re.I) and 'WARNING' not in part:
+                continue
+            for fm in _FRAME.finditer(part) if False else re.finditer(r'(?m)^\s*#\d+ (?:0x[0-9a-f]+ in )?(.+?) (/[^\s:]+)(?::(\d+))?', part):
+                fn, path = fm.group(1), fm.group(2)
+                if '/repo/src/' in path or '/verif/harness/' in path:
+                    fns.append(_short_fn(fn) + '@' + os.path.basename(path))
+                    break
+        sm = re.search(r'SUMMARY: ThreadSanitizer: ([^\n]*)', block)
+        sig = 'tsan:%s|%s' % (kind, '|'.join(sorted(set(fns[:2]))))
+        out.append({'kind': kind, 'sig': sig, 'summary': sm.group(1) if sm else '', 'head': block.strip()[:2500]})
+    return out
+
+
 class Death(dict):
     """Result of a case whose worker died: kind in signal | cpu-timeout | wall-timeout."""
     pass
@@ -146,6 +169,7 @@ class _Worker:
         self.errf = open(self.errpath, 'wb')
         self.proc = subprocess.Popen([self.binary] + self.args, stdin=subprocess.PIPE, stdout=subprocess.PIPE, stderr=self.errf, env=env, bufsize=0, cwd=self.cwd)
         self.buf = b''
+        self.err_off = 0
 
     def stop(self):
         if self.proc:
@@ -248,7 +272,16 @@ class _Worker:
                 if int(sp[1]) != cid:
                     raise HarnessError('protocol: result for %s while running %s' % (sp[1], cid))
                 r = json.loads(sp[2].decode('ascii'))
-                # sanitizer output that did not kill the process (TSan reports)
+                # sanitizer output that did not kill the process (TSan reports): what this case added to stderr
+                try:
+                    with open(self.errpath, 'rb') as f:
+                        f.seek(self.err_off)
+                        new = f.read()
+                    self.err_off += len(new)
+                    if b'ThreadSanitizer' in new:
+                        r['tsan'] = parse_tsan(new.decode('latin-1'))
+                except OSError:
+                    pass
                 return r
             if line.startswith(b'T '):
                 err = self._stderr_text()
